@@ -1,5 +1,9 @@
-(* Extract_subst.v -- extraction of the ec_substitute / replace / re_read / ex_arg model (ExtrOcamlBasic only). *)
+(* Extract_subst.v -- extraction of the ec_substitute / replace / re_read / ex_arg model and of the matcher of
+   ec_substitute over the regex model (SubstEngineDefs: rstr_make / rstr_find as modelled by RstrDefs, RsetDefs, ReVM)
+   (ExtrOcamlBasic only). *)
 From Coq Require Import List NArith ZArith Extraction ExtrOcamlBasic.
-From NV Require Import Bytes UcDefs SubstDefs.
+From NV Require Import Bytes UcDefs SubstDefs ReVM SubstEngineDefs.
 Definition all_types : nat * N * Z := (0%nat, 0%N, 0%Z).
-Extraction "subst_model.ml" all_types re_read subst_args subst_setup ex_arg_s has_g expand scan subst_line flat_old flat_new.
+Definition engine_depth : nat := ReVM.depth.
+Extraction "subst_model.ml" all_types re_read subst_args subst_setup ex_arg_s has_g expand scan subst_line flat_old flat_new
+  engine_depth engine_path engine_find engine_table.
